@@ -508,6 +508,16 @@ def d57():
   return None
 
 
+def d58():
+  d = Device('d', 2, (0, 4))
+  m = TwoRatioMFDeviceSet(d, ['e', 'h'], np.array([1, 2], dtype=np.uint8))
+  c = m.constraints[-1]
+  x = np.array([1., 1., 1., 1.])
+  jac = np.array(c['jac'](x), dtype=float).reshape(-1)
+  fd = np.array([(c['fun'](x + 1e-6*np.eye(4)[i]) - c['fun'](x - 1e-6*np.eye(4)[i]))/2e-6 for i in range(4)]).reshape(-1)
+  return None if np.allclose(jac, fd, atol=1e-6) else 'TwoRatioMFDeviceSet with unsigned-integer ratios: jac %s but finite differences of fun %s (-r[1] wraps around)' % (jac, fd)
+
+
 if __name__ == '__main__':
   names = [a for a in sys.argv[2:]] or sorted(k for k in globals() if k[0] == 'd' and k[1:3].isdigit())
   bad = 0
